@@ -940,6 +940,7 @@ func c05OnceGuards(r *Run, ro *Roles, s *Search) {
 	}
 	if r.keep == nil {
 		r.borrow([]string{"C11.R1:detach-before-release", "C11.R1:queue-before-release"}, "C11.R1", "C05.R14", func() { c11(r) })
+		r.borrow([]string{"C13.R3:visited-is-closed-or-counted"}, "C13.R3", "C05.R15", func() { c13(r) })
 	}
 	// the finalizer waits for the flushing lock (stop(flushing) spins): whoever is parked in Flush must have been woken
 	// before the callbacks run, or the descriptor is never closed and Close never returns
